@@ -264,6 +264,11 @@ func registerBlobs(ex *Explorer) {
 		v, t := in.marshalTarget(iv)
 		return TupleVal{in.newBlob("json", v, t), IfaceVal{}}
 	}
+	// srv.unmarshalStrict(data, v): json.NewDecoder + DisallowUnknownFields + Decode; modelled as
+	// json.Unmarshal of the parse stub (unknown-field strictness is below what the stub represents)
+	I["github.com/pegnet/pegnetd/srv.unmarshalStrict"] = func(in *Interp, fn *ssa.Function, a []Value) Value {
+		return in.Ex.intercepts["encoding/json.Unmarshal"](in, fn, a)
+	}
 	I["encoding/json.Unmarshal"] = func(in *Interp, fn *ssa.Function, a []Value) Value {
 		data := a[0].(SliceVal)
 		dst := a[1].(IfaceVal)
